@@ -281,7 +281,21 @@ def e2e(run):
     y = keras.layers.Flatten(name="f")(y)
     y = Q.QDense(3, kernel_quantizer="quantized_bits(4,0,1,alpha=1)", bias_quantizer="quantized_bits(4,0,1,alpha=1)", name="d")(y)
     return keras.Model(i, y)
-  models = [(n, mk, src) for n, mk, src in c18.map_models() if n != "auto_po2_dense"] + [("branch_add", pool_merge, "quantized_bits(8,0,1)")]
+  def broadcast_merge():
+    # merge layers whose operands broadcast: the count is that of the largest operand, whichever position it has
+    i = keras.Input((4, 3, 2), name="in")
+    f = Q.QConv2D(2, (1, 1), kernel_quantizer="quantized_bits(4,0,1,alpha=1)", use_bias=False, name="feat")(i)
+    g = Q.QConv2D(2, (4, 3), kernel_quantizer="quantized_bits(4,0,1,alpha=1)", use_bias=False, name="gate")(i)      # (1,1,2)
+    y = keras.layers.Multiply(name="mul_big_first")([f, g])
+    z = keras.layers.Add(name="add_big_last")([g, y])
+    # the same with the small operand created (and therefore referenced) before the large one
+    g2 = Q.QConv2D(2, (4, 3), kernel_quantizer="quantized_bits(4,0,1,alpha=1)", use_bias=False, name="gate2")(i)
+    f2 = Q.QConv2D(2, (1, 1), kernel_quantizer="quantized_bits(4,0,1,alpha=1)", use_bias=False, name="feat2")(i)
+    y2 = keras.layers.Multiply(name="mul_small_first")([g2, f2])
+    z2 = keras.layers.Add(name="add_three")([g2, y2, g])
+    return keras.Model(i, [z, z2])
+  models = [(n, mk, src) for n, mk, src in c18.map_models() if n != "auto_po2_dense"] + [("branch_add", pool_merge, "quantized_bits(8,0,1)"),
+                                                                                          ("broadcast_merge", broadcast_merge, "quantized_bits(8,0,1)")]
   nl = 0
   for mname, mk, src in models:
     try:
@@ -400,7 +414,7 @@ def run(tier, seed):
               "energy: extract_energy_sum/profile on a symbolic 3-layer energy dictionary for four cost settings (one with an empty per-class selection); memory read/write energy for "
               "tensor size <= 2^20, bits <= 32, min_sram_size <= 2^20, all placements",
               "end to end (auxiliary, concrete; legacy Keras attributes stubbed): the real QTools on four real models (dense stack, conv2d/depthwise/dense, "
-              "conv1d, two strided conv branches merged by Add): reported operation_count = output elements x taps of the layer Keras built; QTools.pe() "
+              "conv1d, two strided conv branches merged by Add, broadcasting Multiply / Add): reported operation_count = output elements x taps of the layer Keras built; QTools.pe() "
               "for 24 placements: entries >= 0, total_cost = sum of entries, extract_energy_sum = sum of the selected entries",
               "NOT covered: extract_model_operations (qkeras.estimate); "
               "'entries are the documented functions of the reported types' is a restatement of the code and is not claimed"]
